@@ -14,7 +14,7 @@ CLAIMS.update({
    note="Trusted: norm/tnorm/rank axioms (recursive definition by cases; type graphs acyclic; rank(norm t) <= rank t), immutability of type graphs, go/ssa, SMT solvers.",
    ref="6/C14"),
  "C16": dict(
-   text="Partial. Deductive proof that the comparators handed to sort.Slice at the anchored sites (imported declarations by position; alias candidates) compute a specified key order and that this order is a strict weak order, total on distinct positions, so the sorted result does not depend on map iteration order. Order-independence of the range-over-map loops is not decided.",
+   text="Partial. Deductive proof that the comparators handed to sort.Slice at the anchored sites (imported declarations by position; alias candidates) compute a specified key order and that this order is a strict weak order, total on distinct positions, so the sorted result does not depend on map iteration order. The walk over the import graph (module initialisation order) is proved to follow the import lists, dependencies first. Order-independence of the remaining range-over-map loops is not decided.",
    note="Trusted: sort.Slice is deterministic for a strict weak order; interface accessors GetRange/GetTokens/GetArgs are pure; the inner fold countRefAndGenericArgs is an assumed contract.",
    ref="6/C16"),
  "C09": dict(
@@ -33,6 +33,10 @@ CLAIMS.update({
    text="Partial (in progress). Deductive proof of the scanner's cursor primitives against a code-point model of the source (validA/runeA/widthA over the byte array): atEnd, peek, peekNext (two code points of lookahead, exactly), advance (moves by exactly one code point, column+1, stays on a boundary), with panic-freedom of every slice expression.",
    note="Trusted: contracts of utf8.DecodeRune/Valid/RuneCountInString (well-formed UTF-8 model: valid_step, valid_ascii axioms), immutability of the source text.",
    ref="6/C13"),
+ "C10": dict(
+   text="Partial. Deductive proof (nested loop invariants, recursion by contract) that the walk over the import graph hands a module to the callback only after entering it into the visited set (at most once per module) and only after every module it imports has been visited (dependencies first), following the import lists, not a map order. Visibility of exactly the public names, name mangling and cycle rejection are not yet under contract.",
+   note="Trusted: the import graph is not rewritten during the walk; the callback cannot reach the visited set ('preserves' clause); import lists contain no nil modules.",
+   ref="6/C10"),
 })
 NA = {
  "C08": "relational whole-program property (no holder observes another holder's mutation); no function contract within reach states it; the local copy/claim mechanics are covered under C05/C18 where claimed",
